@@ -36,8 +36,17 @@ def gen_case(rng, hermitian):
         # a non-transitive tolerance chain E, E+0.06, E+0.12 (atol = 0.1) inside a fully diagonalised block of 3 levels
         # (plus 0-2 further, well separated levels in the same block)
         sizes[fully[0]] = 3 + rng.randint(0, 2)
+    # a quarter of the cases designate the blocks by (complete) subspace_eigenvectors: a unitary basis in Hermitian mode,
+    # biorthogonal (right, left) pairs with left != right in non-Hermitian mode; the perturbation is then given in the
+    # lab basis (in non-Hermitian mode half of the terms are Hermitian matrices there) and projected by the oracle itself
+    eig = (not chain) and rng.random() < 0.25
+    # a custom Sylvester solver (then H_0 only has to be block diagonal, not diagonal): two-argument form for any number of
+    # blocks, the deprecated one-argument form for two blocks in Hermitian mode
+    custom = None
+    if not chain and not eig and not fully and nb >= 2 and rng.random() < 0.3:
+        custom = "legacy" if (nb == 2 and hermitian and rng.random() < 0.5) else "index"
     return dict(sizes=sizes, nparam=nparam, fmt=fmt, cplx=cplx, seed=seed, fully=fully, hermitian=hermitian,
-                N=3, cplx_energy=(not hermitian and not chain and rng.random() < 0.6), chain=chain, atol=(0.1 if chain else None))
+                N=3, cplx_energy=(not hermitian and not chain and rng.random() < 0.6), chain=chain, atol=(0.1 if chain else None), eig=eig, custom=custom)
 
 
 def build(case):
@@ -73,6 +82,21 @@ def build(case):
                 M = M + 1j * rs.normal(size=(dim, dim))
             if case["hermitian"]:
                 M = (M + M.conj().T) / 2
+            if case.get("atol"):
+                # the library converts a block whose entries are all below atol to an exact zero (documented meaning of
+                # atol): keep every block of every term clearly above it, so that nothing is pruned
+                offs = np.cumsum([0] + list(sizes))
+                for i in range(nb):
+                    for j in range(i, nb):
+                        blk = M[offs[i]:offs[i + 1], offs[j]:offs[j + 1]]
+                        if np.abs(blk).max() < 5 * case["atol"]:
+                            M[offs[i], offs[j]] += 1.0
+                            if i != j:
+                                M[offs[j], offs[i]] += 1.0
+                        if not case["hermitian"] and i != j:
+                            blk2 = M[offs[j]:offs[j + 1], offs[i]:offs[i + 1]]
+                            if np.abs(blk2).max() < 5 * case["atol"]:
+                                M[offs[j], offs[i]] += 1.0
             terms[o] = M
     return sub, E, H0, terms
 
@@ -97,15 +121,78 @@ def check_case(case, tol=2e-8):
     k = case["nparam"]
     N = case["N"]
     conv = (lambda M: sp.csr_array(M)) if case["fmt"] == "sparse" else (lambda M: M)
-    H = {(0,) * k: conv(H0)}
-    for o, M in terms.items():
-        H[o] = conv(M)
+    bkw = dict(subspace_indices=sub)
+    if case.get("eig"):
+        rs = np.random.default_rng(case["seed"] + 1)
+        a = rs.standard_normal((dim, dim)) + (1j * rs.standard_normal((dim, dim)) if case["cplx"] else 0)
+        if case["hermitian"]:
+            Rm = np.linalg.qr(a)[0]
+            Rinv = Rm.conj().T
+        else:
+            Rm = np.eye(dim) + 0.3 * a
+            while np.linalg.cond(Rm) > 8:
+                a = 0.7 * a
+                Rm = np.eye(dim) + 0.3 * a
+            Rinv = np.linalg.inv(Rm)
+        # lab-basis problem; `terms` are re-drawn in the lab basis, the eigenbasis terms are computed here
+        lab = {}
+        for o in list(terms):
+            T = rs.standard_normal((dim, dim)) + (1j * rs.standard_normal((dim, dim)) if case["cplx"] else 0)
+            if case["hermitian"] or rs.uniform() < 0.5:
+                T = (T + T.conj().T) / 2
+            lab[o] = T
+            terms[o] = Rinv @ T @ Rm
+        H0lab = Rm @ np.diag(E) @ Rinv
+        if not case["cplx"] and not np.iscomplexobj(E):
+            H0lab = H0lab.real
+        H = {(0,) * k: conv(H0lab)}
+        for o, T in lab.items():
+            H[o] = conv(T)
+        offs0 = np.cumsum([0] + sizes)
+        rights = [np.ascontiguousarray(Rm[:, offs0[i]:offs0[i + 1]]) for i in range(nb)]
+        lefts = [np.ascontiguousarray(Rinv[offs0[i]:offs0[i + 1], :].conj().T) for i in range(nb)]
+        bkw = dict(subspace_eigenvectors=rights if case["hermitian"] else list(zip(rights, lefts)))
+    elif case.get("custom"):
+        import scipy.linalg as sla
+        rs = np.random.default_rng(case["seed"] + 2)
+        offs0 = np.cumsum([0] + sizes)
+        A = []
+        H0 = np.zeros((dim, dim), dtype=complex)
+        for i in range(nb):
+            a = rs.standard_normal((sizes[i], sizes[i])) + (1j * rs.standard_normal((sizes[i], sizes[i])) if case["cplx"] else 0)
+            if case["hermitian"]:
+                q = np.linalg.qr(a)[0]
+                Ai = q @ np.diag(E[offs0[i]:offs0[i + 1]]) @ q.conj().T
+            else:
+                q = np.eye(sizes[i]) + 0.25 * a / max(1.0, np.abs(a).max())
+                Ai = q @ np.diag(E[offs0[i]:offs0[i + 1]]) @ np.linalg.inv(q)
+            A.append(Ai)
+            H0[offs0[i]:offs0[i + 1], offs0[i]:offs0[i + 1]] = Ai
+        if not case["cplx"] and not np.iscomplexobj(E):
+            H0 = H0.real
+            A = [x.real for x in A]
+
+        def solve2(Y, index):
+            Yd = Y.toarray() if sp.issparse(Y) else np.asarray(Y)
+            # H_0^(i) V - V H_0^(j) = Y
+            return sla.solve_sylvester(A[index[0]], -A[index[1]], Yd)
+        if case["custom"] == "legacy":
+            bkw = dict(subspace_indices=sub, solve_sylvester=lambda Y: solve2(Y, (0, 1)))
+        else:
+            bkw = dict(subspace_indices=sub, solve_sylvester=solve2)
+        H = {(0,) * k: conv(H0)}
+        for o, M in terms.items():
+            H[o] = conv(M)
+    else:
+        H = {(0,) * k: conv(H0)}
+        for o, M in terms.items():
+            H[o] = conv(M)
     fails = []
     with warnings.catch_warnings():
         warnings.simplefilter("ignore")
         try:
             kw = dict(atol=case["atol"]) if case.get("atol") else {}
-            Ht, U, Ui = block_diagonalize(dict(H), subspace_indices=sub, fully_diagonalize=tuple(case["fully"]), hermitian=case["hermitian"], **kw)
+            Ht, U, Ui = block_diagonalize(dict(H), **bkw, fully_diagonalize=tuple(case["fully"]), hermitian=case["hermitian"], **kw)
             offs = np.cumsum([0] + sizes)
             S = {}
             for name, X in (("Ht", Ht), ("U", U), ("Ui", Ui)):
@@ -185,7 +272,7 @@ def oracle_float(ctx, hermitian=True, ncases=None, props=None):
     fails = [f for r in res for f in r if (props is None or f.get("prop") in props or f.get("prop") in ("run", "finite"))]
     import json
     return dict(evaluations=len(cases), nontrivial=len({json.dumps(c, sort_keys=True) for c in cases if sum(c["sizes"]) >= 2}),
-                rule="random FLOAT problems (dense/sparse, real/complex entries, complex unperturbed energies in non-Hermitian mode, 1-3 blocks of size 1-3, 1-2 parameters, tuple fully_diagonalize with degenerate pairs), total order <= 3, tolerance 2e-8*scale^3; non-Hermitian cases keep every kept element between equal unperturbed energies",
+                rule="random FLOAT problems (dense/sparse, real/complex entries, complex unperturbed energies in non-Hermitian mode, 1-3 blocks of size 1-3, 1-2 parameters, tuple fully_diagonalize with degenerate pairs; Hermitian tolerance chains; a quarter with complete subspace_eigenvectors - unitary, or biorthogonal (right,left) pairs - and lab-basis perturbations projected by the oracle; custom solve_sylvester (two-argument, and the deprecated one-argument form) with block-diagonal non-diagonal H_0), total order <= 3, tolerance 2e-8*scale^3; non-Hermitian cases keep every kept element between equal unperturbed energies",
                 samples=cases[:2], failures=fails)
 
 
